@@ -354,7 +354,9 @@ def run(run):
     run.count("corpus", len(cases))
     while len(cases) < ncases:
         cases.append(gen_case(run.rng, run.thorough))
-    with multiprocessing.get_context("fork").Pool(common.NCPU) as pool:
+    import dclab  # noqa: F401 (imported before the fork)
+    import h5py  # noqa: F401
+    with multiprocessing.get_context("fork").Pool(min(8, common.NCPU)) as pool:
         results = pool.map(_work, [(c, run.scratch) for c in cases],
                            chunksize=8)
     for c, (obs, fails, info) in zip(cases, results):
